@@ -9,6 +9,7 @@ EXPLANATION = ("C04: in req0_recv_cb delivery is dominated by the id lookup and 
                "before handing the request up and clears them on every path of a send; raw xrep routes by the popped "
                "header word only after the length test; the backtrace loops of rep/xrep obey the shared hop-loop facts."
                " Also: cooked send slots clear the header before they compose it (R2); an id is removed from its map with the live value, not after the field was zeroed (R7).")
+EXPLANATION += ' Round 6: an unmatched reply is discarded, not punished by closing the pipe (R9); the routing state of a replying context is written only where a request is taken from a pipe (R10).'
 
 
 def is_call(name):
